@@ -19,7 +19,7 @@ from . import shapes_common as sc
 from .shapes_common import Fr
 
 PID = "C13"
-PROOF_FILES = ["theories/Props/C13.v", "theories/Proofs/ContainProofs.v", "theories/Spec/Shapes.v", "theories/Base/RVec2.v"]
+PROOF_FILES = ["theories/Props/C13.v", "theories/Proofs/ContainProofs.v", "theories/Proofs/ContainCross.v", "theories/Spec/Shapes.v", "theories/Base/RVec2.v"]
 KINDS = ["sphere", "capsule", "ellipsoid", "disk", "cone", "cylinder", "box", "mesh"]
 PUSH = [1.5, 4.0, 100.0, 1e4]
 
